@@ -271,41 +271,7 @@ Definition C05_oracle_ok (c : C05_case) : bool :=
   o_nopanic c && o_identity c && o_sent c && o_forged c && o_nack c && o_fair c.
 
 (* ------------------------------------------------------- known-finding classes
-   1 C05-nackfrag-count-zero      the reader's NACK_FRAG always carries count 0, the writer's
-                                  `count > last` filter drops it: a lost fragment is never repaired
-   2 C05-nackfrag-off-by-one      the writer uses the 1-based requested number as 0-based index
-   3 C05-fragsize-zero-div        DATA_FRAG announcing fragment_size 0: divide by zero in the reader
-   4 C05-nackfrag-bitmap-overflow more than 256 fragment numbers between first and last missing one:
-                                  index out of bounds while the reader builds its NACK_FRAG
-   5 C05-mixed-readerid-truncation fragments of one sample addressed to two readers of one participant
-                                  are both buffered and counted: a truncated payload is delivered
-   6 C05-nackfrag-none-missing-panic every fragment number of a sample is buffered but the counted total
-                                  differs from the expected one (copies for two readers, or foreign
-                                  fragments_in_submessage <> 1): never reassembled, and the heartbeat reply
-                                  panics at expect("At least a fragment must be missing") *)
-
-Definition has_fsize0 (ops : list op) : bool :=
-  existsb (fun o => match o with OForeign fr => fr_fsize fr =? 0 | _ => false end) ops.
-Definition has_second_reader_delivery (c : C05_case) : bool :=
-  (2 <=? c_nreaders c) &&
-  existsb (fun o => match o with ODeliver _ _ w => negb (w =? 1) | _ => false end) (c_ops c).
-(* the implementation's own trace shows a reader NACK_FRAG with count 0 *)
-Definition impl_nf_count0 (c : C05_case) : bool :=
-  match c_out c with
-  | Ok (os, _) => existsb (fun o => match o with VReply (Some (_, Some nf)) => n_count nf <=? 0 | _ => false end) os
-  | _ => false
-  end.
-Definition model_panic_site (c : C05_case) : Z :=
-  match C05_run c with Panic s => s | _ => 0 end.
-
-Definition C05_known (c : C05_case) : N :=
-  if negb (o_nopanic c) then
-    if has_fsize0 (c_ops c) && ((model_panic_site c =? 28) || (model_panic_site c =? 299)) then 3%N
-    else if model_panic_site c =? 123 then 4%N
-    else if model_panic_site c =? 4 then 6%N else 0%N
-  else if negb (o_identity c) then (if has_second_reader_delivery c then 5%N else 0%N)
-  else if negb (o_sent c) then 0%N
-  else if negb (o_forged c) then 2%N
-  else if negb (o_nack c) then (if impl_nf_count0 c then 1%N else 0%N)
-  else if negb (o_fair c) then (if impl_nf_count0 c then 1%N else 0%N)
-  else 0%N.
+   none: the six defects found by this check (C05-nackfrag-count-zero, C05-nackfrag-off-by-one,
+   C05-fragsize-zero-div, C05-nackfrag-bitmap-overflow, C05-mixed-readerid-truncation,
+   C05-nackfrag-none-missing-panic) are repaired in /repo; their witnesses are regression cases *)
+Definition C05_known (c : C05_case) : N := 0%N.
